@@ -419,3 +419,27 @@ package raft
 //@ func Raft.restore
 //@   requires r.log != nil && r.stateStorage != nil && r.snapshotStorage != nil && r.transport != nil && r.fsm != nil
 //@   ensures [term-vote] err == nil ==> r.currentTerm == persTerm && r.votedFor == persVote
+
+// ===========================================================================================
+// Leader side: replication, commitment, leadership confirmation (C01, C04, C05, C09, C17)
+// ===========================================================================================
+
+//@ spec matchSet(r, index) = setof(fid string : fid != r.id && r.configuration.IsVoter[fid] && r.followers[fid].matchIndex >= index)
+
+//@ func Raft.commitLoop
+//@   at before-assign r.commitIndex assert [commit-rule] r.state == Leader && index > r.commitIndex && index <= Llast && Lterm[index] == r.currentTerm && matches == 1 + cnt(dom(r.followers), matchSet(r, index)) && 2*matches > cntVoters(r.configuration)
+//@   loop for index invariant [bounds] r.commitIndex < index && r.commitIndex >= old(r.commitIndex) && r.commitIndex <= Llast
+//@   loop range r.followers invariant [matches] matches == 1 + cnt(visited, matchSet(r, index))
+
+//@ func Raft.sendAppendEntries
+//@   release s1 [leader-id] r.state == Leader && request.Term == r.currentTerm && request.LeaderID == r.id
+//@   release s1 [wf] WF(request) && request.LeaderCommit == r.commitIndex && r.lastIncludedIndex <= request.PrevLogIndex
+//@   release s1 [entries-verbatim] forall j int :: 0 <= j && j < len(request.Entries) ==> request.Entries[j].Term == Lterm[request.PrevLogIndex+1+j] && request.Entries[j].EntryType == Ltyp[request.PrevLogIndex+1+j] && request.Entries[j].Data == Ldata[request.PrevLogIndex+1+j]
+//@   release s1 [prev-term] request.PrevLogIndex <= Llast ==> (request.PrevLogIndex == r.lastIncludedIndex ==> request.PrevLogTerm == r.lastIncludedTerm) && (request.PrevLogIndex > r.lastIncludedIndex ==> request.PrevLogTerm == Lterm[request.PrevLogIndex])
+//@   at before-assign follower.matchIndex assert [match-sound] response.Success && err == nil && r.state == Leader && r.currentTerm == request.Term && newval == request.PrevLogIndex + len(request.Entries)
+//@   at before-assign *numResponses assert [verify-voters] err == nil && r.state == Leader && r.currentTerm == request.Term && r.configuration.IsVoter[id]
+//@   at call r.tryApplyReadOnlyOperations assert [confirm-quorum] 2 * *numResponses > cntVoters(r.configuration)
+//@   loop for index invariant [entries] nextIndex > r.lastIncludedIndex ==> len(entries) == index - nextIndex && index <= Llast + 1 && forall j int :: 0 <= j && j < len(entries) ==> entries[j] != nil && entries[j].Index == nextIndex + j && entries[j].Term == Lterm[nextIndex+j] && entries[j].EntryType == Ltyp[nextIndex+j] && entries[j].Data == Ldata[nextIndex+j]
+
+//@ func Raft.sendInstallSnapshot
+//@   flags inline lockheld
